@@ -7,11 +7,11 @@ PROP = 'C01'
 def prof(seed):
     k = seed % 4
     if k == 0:
-        return gen.profile(p_stamp=0.35, top_bias=0.6, ops=dict(m_stamp=3, m_failfix=1, m_doswap=1))
+        return gen.profile(p_stamp=0.35, top_bias=0.6, ops=dict(m_stamp=3, m_failfix=1, m_doswap=1, m_stampflip=1, edit_back=1))
     if k == 1:
         return gen.profile(jmax=4, p_keep=0.2, ops=dict(m_failfix=2, force=2))
     if k == 2:
-        return gen.profile(ntgt=(6, 14), steps=(10, 25), p_stamp=0.2, ops=dict(m_stamp=1, m_dropdep=1, m_doswap=1, m_failfix=1))
+        return gen.profile(ntgt=(6, 14), steps=(10, 25), p_stamp=0.2, ops=dict(m_stamp=1, m_dropdep=1, m_doswap=1, m_failfix=1, m_stampflip=1, edit_back=1))
     return gen.profile()
 
 
